@@ -526,6 +526,9 @@ pub fn build(program: &Program, cfg: &Config) -> Result<Built, String> {
     cmd.args(["-C", "codegen-units=1", "-C", "force-frame-pointers=no"]);
     if !cfg.pie {
         cmd.args(["-C", "relocation-model=static", "-C", "link-arg=-no-pie"]);
+        // a classic executable without any shared library has no .dynamic section at all (it is
+        // a static executable, which BugStalker does not support): keep libc as a dependency
+        cmd.args(["-C", "link-arg=-Wl,--no-as-needed", "-C", "link-arg=-lc"]);
     }
     cmd.args([
         "-C",
